@@ -46,6 +46,8 @@ func (h hCall) String() string {
 		return fmt.Sprintf("task%d: t%d = NewRoot(%q)", h.Task, h.Tree, h.Name)
 	case "add":
 		return fmt.Sprintf("task%d: t%d.node[%d].Add(%q)", h.Task, h.Tree, h.Node, h.Name)
+	case "stalled":
+		return "bystander: OutputFromMarkdown+WithMassive of a document with many roots into a writer whose first Write returns only when all other callers are done"
 	case "op":
 		extra := ""
 		if h.Reenter {
@@ -364,6 +366,18 @@ func runHistory(c *Ctx, name string, calls []*hCall, nTasks int, sim bool, jail 
 			color.Output = rw
 			defer func() { color.Output = old }()
 			done := 0
+			gate := make(chan struct{})
+			for _, h := range calls {
+				if h.Kind != "stalled" {
+					continue
+				}
+				h := h
+				run.Spawn("9", "harness:0:bystander", func() {
+					wr := newSimWriter(noWriterFault, true)
+					wr.gate = gate
+					gtree.OutputFromMarkdown(wr, newSimReader(h.Doc, noReaderFault, true), gtree.WithMassive(context.Background()))
+				})
+			}
 			for ti := 0; ti < nTasks; ti++ {
 				ti := ti
 				id := fmt.Sprint(ti)
@@ -376,6 +390,9 @@ func runHistory(c *Ctx, name string, calls []*hCall, nTasks int, sim bool, jail 
 						do(i, h, true, rw, id)
 					}
 					done++
+					if done == nTasks {
+						close(gate) // every caller is done: the bystander's writer lets go
+					}
 				})
 			}
 			run.Loop()
@@ -629,6 +646,18 @@ func genHistory(c *Ctx, o histOpts) (calls []*hCall, nTasks int, nontrivial bool
 			}
 			calls = append(calls, h)
 		}
+	}
+	if o.allowMd && c.Chance(1, 12) {
+		// a bystander: one more caller whose massive call on a document with many roots is held
+		// up by its own writer (the first Write returns only when every other caller is done).
+		// What it holds while it waits must be its own: nobody else may wait for it.
+		var sb strings.Builder
+		for i := 0; i < 22+c.Draw(10); i++ {
+			fmt.Fprintf(&sb, "- bystander%d\n  - child\n", i)
+		}
+		calls = append(calls, &hCall{Kind: "stalled", Task: -1, Doc: []byte(sb.String())})
+		c.st.Count("history.with-stalled-bystander-call")
+		nontrivial = true
 	}
 	if nTasks >= 2 {
 		nontrivial = true
